@@ -591,7 +591,7 @@ def _judge_sequence(acc, root, build_path, maint_seq, shift):
 # makes them reachable again and then runs maintenance itself.  Its view of the packs is stale at that point; the
 # statement ("for every history") still requires that nothing reachable is lost.
 FOREIGN_OPS = [("gc", None), ("repack_exclude_unreachable",), ("repack",), ("pack_loose_objects",)]
-T_FOREIGN_OPS = FOREIGN_OPS + [("gc", 0), ("git_repack_ad",), ("git_gc_prune_now",)]
+T_FOREIGN_OPS = FOREIGN_OPS + [("gc", 0)]
 REVIVE = [
     [],
     [("loose", "G2"), ("ref", "m", "c2")],
@@ -879,7 +879,7 @@ def run(ctx):
         if not any(b[0] in ("loose", "pack", "alt") for b in p):
             continue
         for f in (FOREIGN_OPS[:3] if q else T_FOREIGN_OPS):
-            for shift in ((0,) if q else (0, 30 * DAY)):
+            for shift in (0,):
                 t2.append((p, f, shift, REVIVE[:4] + REVIVE[5:6] if q else REVIVE, OWN_OPS[::2] if q else T_OWN_OPS))
     pmap_acc(work_two_handles, split(ctx.order(t2), ctx.jobs * 8), ctx.acc, jobs=ctx.jobs)
     n = ctx.acc.n
